@@ -447,15 +447,20 @@ func r18loadX(c *core.Ctx, R string) {
 		}
 		for _, a := range ev.Args {
 			if a.K == core.APtr && (a.Path == "p0" || strings.HasPrefix(a.Path, "p0.")) {
-				handed = shortName(ev.Callee)
+				handed = "configuration handed to " + shortName(ev.Callee)
 			}
+		}
+	}
+	ex.OnStore = func(path string) {
+		if parsed && strings.HasPrefix(path, "p0.") {
+			handed = "a later assignment to " + strings.TrimPrefix(path, "p0.")
 		}
 	}
 	args := core.DefaultArgs(fn)
 	args[0] = core.NonNilArg(args[0])
 	outs, err := ex.Run(fn, args, nil)
 	if handed != "" {
-		c.Fail(R, "stgutg.GetConfiguration:no-post-processing", fn.Pos(), "the configuration is modified after parsing (configuration handed to %s): values no longer reach the procedures unchanged", handed)
+		c.Fail(R, "stgutg.GetConfiguration:no-post-processing", fn.Pos(), "the configuration is modified after parsing (%s): values no longer reach the procedures unchanged", handed)
 		return
 	}
 	if err != nil || len(outs) == 0 {
